@@ -77,5 +77,5 @@ MANIFEST = {
             "child removed and re-added during its key roll). rpki-rs resource arithmetic, real "
             "certificates and the wall clock are outside the model.",
     "technique": "Lean 4 proof (invariants by induction over command histories, finite abstraction + decide, concrete counter-examples) "
-                 "+ correspondence check",
+                 "+ source translator (bodies of CertifiedKey::wants_update and of the keys_for_requests part of KeyState::append_entitlement_events = the model: gen_wants_update_eq_model, gen_keys_for_requests_eq_model) + correspondence check",
 }
